@@ -46,6 +46,31 @@ def state_calls(prog, f, state_local, after_blocks=None):
     return out
 
 
+def _zero_operand(ctx, prog, f, o):
+    """True / False / None (cannot tell): the operand is an all-zero byte array - a literal or promoted `[0u8; N]`, or a
+    named constant whose initialiser (read from its definition) is `[0; N]`"""
+    if cm.is_zero_array_operand(f, o):
+        return True
+    e = expr_of_operand(f, o)
+    hops = 0
+    while e is not None and e.k in ("ref", "deref", "cast") and hops < 4:
+        e, hops = e.a, hops + 1
+    if e is not None and e.k == "const" and isinstance(e.b, str) and e.b in prog.consts:
+        sp = prog.consts[e.b].get("span") or {}
+        try:
+            import os as _os
+            import re as _re
+            lines = open(_os.path.join(ctx.repo, sp["file"])).read().split("\n")
+            txt = " ".join(lines[sp["lo"] - 1:sp["hi"] + 3])
+            m = _re.search(r"=\s*\[\s*(0x[0-9a-fA-F]+|\d+)(?:_?u8)?\s*;", txt)
+            if m:
+                return int(m.group(1), 0) == 0
+        except (OSError, KeyError, ValueError):
+            pass
+        return None
+    return False
+
+
 def run(ctx, rep):
     rep.explanation = EXPLANATION
     rep.not_decided = NOT_DECIDED
@@ -195,15 +220,19 @@ def run(ctx, rep):
             return None
         stv = views_of(f, [state_param(f)])
         rets = [b for b in range(f.n) if f.blocks[b]["t"]["k"] == "return"]
+        rkb = [x_.bb for x_ in rk]      # (one rekey call per trigger is as good as one shared call ...
         deciding = set()
+        sig = set()
+        # ... as long as no path runs two of them: tag bit and counter wrap together still rekey once)
+        if any(y_ in f.reachable_from_after(x_) for x_ in rkb for y_ in rkb):
+            sig.add(("a path rekeys twice", ()))
         for b in region:
             t = f.blocks[b]["t"]
             if t["k"] != "switch":
                 continue
             # rekey can be reached from here, and can also be avoided from here
-            if rk[0].bb in f.reachable(b) and any(r_ in f.reachable(b, cut_blocks=[rk[0].bb]) for r_ in rets):
+            if any(x_.bb in f.reachable(b) for x_ in rk) and any(r_ in f.reachable(b, cut_blocks=rkb) for r_ in rets):
                 deciding |= f.backward_slice(operand_locals(t["x"]))
-        sig = set()
         for b, i, s_ in f.assigns():
             if b in region and s_["rv"]["k"] == "binop" and s_["rv"]["op"] == "BitAnd" and s_["place"]["l"] in deciding:
                 cs = [evaluate(expr_of_operand(f, o), {}) for o in (s_["rv"]["l"], s_["rv"]["r"])]
@@ -214,7 +243,7 @@ def run(ctx, rep):
                 sig.add(("counter==0", tuple(w for w in [cm.array_width(f, a) for a in c.args] if w)))
                 # ... with zeros: the operand that is not a view of the state is an all-zero array
                 oth = [a for a in c.args if not (a.get("k") in ("copy", "move") and a["l"] in stv)]
-                if len(oth) != 1 or not cm.is_zero_array_operand(f, oth[0]):
+                if len(oth) != 1 or _zero_operand(ctx, prog, f, oth[0]) is False:
                     sig.add(("counter compared with something that is not all-zero", ()))
                 # polarity: the edge taken when the comparison says "equal" leads to the rekey on every path, the
                 # edge taken when it says "different" does not lead to it (`unwrap_u8() == 2` is never true)
@@ -225,7 +254,7 @@ def run(ctx, rep):
                         r_ = edges_for_sets(f, b_, c, CT_T, CT_F)
                         if r_ and r_[0] != r_[1]:
                             dec_.append(r_)
-                leads = lambda t_: rk[0].bb in f.reachable(t_) and not any(x_ in f.reachable(t_, cut_blocks=[rk[0].bb]) for x_ in rets)
+                leads = lambda t_: any(y_ in f.reachable(t_) for y_ in rkb) and not any(x_ in f.reachable(t_, cut_blocks=rkb) for x_ in rets)
                 # (a switch on a flag that other conditions can set as well - `tag & 2 == 2 || counter == 0` returned by
                 # a folded-in helper - is decided per definition: "equal" must lead to the rekey, "different" may avoid it)
                 pol = bool(dec_) and all(all(leads(t_) for t_ in ta_) and any(not leads(t_) for t_ in tb_) for ta_, tb_ in dec_)
